@@ -267,4 +267,8 @@ def c17(a):
     return run('C17', 'proof', a, 'one obligation per (scalar overload, element type[, literal count]): the scalar overload is compiled and its result term must equal the SAME spec form / reviewed template the batch kernels are matched against in C01-C03, C07, C08 -- scalar/batch agreement then follows by transitivity for all operand values')
 
 
-REGISTRY = {'C17': c17, 'C06': c06, 'C04': c04, 'C05': c05, 'C01': c01, 'C02': c02, 'C03': c03, 'C07': c07, 'C08': c08, 'C09': c09}
+def c16(a):
+    return run('C16', 'proof', a, 'one obligation per (complex operation component, float|double, configuration): +,-,*,/,fma/fms/fnma/fnms and norm: the lane term of the real/imaginary result with every rounding erased (fma expanded, negations pushed to the leaves, sums flattened) is the textbook sum of products; ==/!=, real, imag, conj, proj: exact lane terms; interleaved load/store: footprint exactly 2n elements and memory element 2i / 2i+1 <-> lane i of real() / imag()')
+
+
+REGISTRY = {'C16': c16, 'C17': c17, 'C06': c06, 'C04': c04, 'C05': c05, 'C01': c01, 'C02': c02, 'C03': c03, 'C07': c07, 'C08': c08, 'C09': c09}
